@@ -13,6 +13,13 @@
 (*     R4 no packet is emitted twice,                                                              *)
 (*     R5 the queue only holds held packets that were not emitted, without duplicates, bounded.    *)
 (*   Everything else (dropping, order of the queue, creating circuits) is left open.               *)
+(*   WHO ASKED (written from the statement, not from the switch of the endpoint): overlay          *)
+(*   instances come and go on the shared endpoint (insts); an instance asks for anonymity when it  *)
+(*   is constructed with anonymize = TRUE, an explicit set_anonymity(prefix, v) by the application *)
+(*   speaks for every instance of that prefix, UNLOADING an instance asks for nothing.  A send is  *)
+(*   "anon" when the sending instance asked (loaded or not, replaced or not), "plain" when nobody  *)
+(*   asked for its prefix, and left open ("open": either treatment) when the instance itself did   *)
+(*   not ask but shares its prefix with one that did.                                              *)
 (* Implementation layer: one action per call of the pinned code (deterministic), the circuits      *)
 (* table in dict order (send() takes circuits[0]), the deque(maxlen = QCap).                       *)
 EXTENDS Naturals, Sequences, FiniteSets, TLC, SequencesExt
@@ -23,9 +30,16 @@ CONSTANTS Pfx,           \* overlay prefixes that send through the endpoint
           QCap,          \* deque(maxlen=100)
           MaxDepth,      \* exploration bound: every behaviour of MaxDepth steps
           LeakDetached,  \* negative control: without tunnel community fall back to the raw socket
-          AnyState       \* negative control: do not look at the state of the chosen circuit
+          AnyState,      \* negative control: do not look at the state of the chosen circuit
+          MaxInst,       \* overlay instances 1..MaxInst (one per prefix exists at the start; bounds the model)
+          Lifecycle,     \* instances are loaded / unloaded during the behaviour
+          UnloadClears,  \* negative control: unloading an instance switches anonymity of its prefix off
+          CandInit       \* initial values of cand (the life-cycle configurations start without candidates)
 
-VARIABLES anon,      \* [Pfx -> BOOLEAN] the overlay asked for anonymity = TunnelEndpoint.settings (missing = FALSE)
+VARIABLES anon,      \* [Pfx -> BOOLEAN] the per-prefix switch = TunnelEndpoint.settings (missing = FALSE)
+          insts,     \* overlay instances on the endpoint in order of construction: [p, req, loaded]; req = this
+                     \* instance asked for anonymity (settings.anonymize, overruled by an explicit set_anonymity)
+          asked,     \* [Pfx -> BOOLEAN] somebody asked for anonymity of this prefix and nobody took it back
           attached,  \* tunnel_community is not None
           hopsCfg,   \* TunnelEndpoint.hops
           cand,      \* the tunnel community knows an IPv8 exit and a relay candidate (environment)
@@ -34,9 +48,9 @@ VARIABLES anon,      \* [Pfx -> BOOLEAN] the overlay asked for anonymity = Tunne
           queue,     \* TunnelEndpoint.send_queue : sequence of packet ids
           nsent,     \* packets handed to send() so far (packet ids 1..nsent)
           out,       \* what the LAST step put on the wire: sequence of [k, pkt, cid]
-          last,      \* the last step: [kind |-> "plain"/"anon"/"fill"/"env", pkt]
+          last,      \* the last step: [kind |-> "plain"/"anon"/"open"/"fill"/"env", pkt] (kind of a send = KindOf)
           depth      \* number of steps taken (exploration bound only; multi-worker TLC has no exact level)
-vars == <<anon, attached, hopsCfg, cand, circuits, ncirc, queue, nsent, out, last, depth>>
+vars == <<anon, insts, asked, attached, hopsCfg, cand, circuits, ncirc, queue, nsent, out, last, depth>>
 
 Raw(pkt)      == [k |-> "raw", pkt |-> pkt, cid |-> 0]
 Tun(pkt, cid) == [k |-> "tun", pkt |-> pkt, cid |-> cid]
@@ -51,7 +65,8 @@ RightCircuit(c, hops) == IsReady(c) /\ c.goal = hops /\ c.len >= 1 /\ c.flag
 (* ABSTRACT LAYER                                                                                *)
 Emitted(o)  == {o[i].pkt : i \in DOMAIN o}
 (* kind: "plain" (send of packet pkt by an overlay without anonymity), "anon" (send of the packets *)
-(* fresh by overlays with anonymity), "env" (anything else); q/q2: queue before/after; o2: what    *)
+(* fresh by overlays that asked for anonymity), "env" (anything else; "open" is judged as either  *)
+(* of the first two, see Judge); q/q2: queue before/after; o2: what                                 *)
 (* the step emitted; att/hops/circs: the configuration the emissions are judged against            *)
 StepAllowed(kind, pkt, fresh, q, q2, o2, att, hops, circs) ==
   LET held == Range(q) \cup fresh IN
@@ -67,11 +82,21 @@ StepAllowed(kind, pkt, fresh, q, q2, o2, att, hops, circs) ==
   /\ Len(q2) = Cardinality(Range(q2))
   /\ Len(q2) <= QCap
 
+(* who asked: the abstract bookkeeping of requests (shared with the trace specification)          *)
+KindOf(ins, ask, i) == IF ins[i].req THEN "anon" ELSE IF ~ask[ins[i].p] THEN "plain" ELSE "open"
+InstsAfterLoad(ins, p, a)  == Append(ins, [p |-> p, req |-> a, loaded |-> TRUE])
+AskedAfterLoad(ask, p, a)  == IF a THEN [ask EXCEPT ![p] = TRUE] ELSE ask
+InstsAfterSet(ins, p, v)   == [i \in DOMAIN ins |-> IF ins[i].p = p THEN [ins[i] EXCEPT !.req = v] ELSE ins[i]]
+AskedAfterSet(ask, p, v)   == [ask EXCEPT ![p] = v]
+InstsAfterUnload(ins, i)   == [ins EXCEPT ![i].loaded = FALSE]          \* and nothing else: no request is withdrawn
+
 (* a send() is judged against the configuration it started in (circuits may only be ADDED while  *)
 (* it runs), every other step against the configuration it produces                               *)
 Judge(kind, pkt, fresh, q, q2, o2, att, hops, circs, att2, hops2, circs2) ==
   IF kind = "plain" THEN StepAllowed("plain", pkt, {}, q, q2, o2, att, hops, circs)
   ELSE IF kind = "anon" THEN StepAllowed("anon", 0, fresh, q, q2, o2, att, hops, circs)
+  ELSE IF kind = "open" THEN \/ StepAllowed("plain", pkt, {}, q, q2, o2, att, hops, circs)
+                             \/ StepAllowed("anon", 0, fresh, q, q2, o2, att, hops, circs)
   ELSE StepAllowed("env", 0, {}, q, q2, o2, att2, hops2, circs2)
 
 (* as an action over the variables; "fill" = the sends nsent+1 .. nsent' in one step of the model *)
@@ -80,10 +105,13 @@ AbsStep == Judge(IF last'.kind = "fill" THEN "anon" ELSE last'.kind, last'.pkt, 
 
 (* ------------------------------------------------------------------------------------------- *)
 (* IMPLEMENTATION LAYER                                                                          *)
+PfxSeq == SetToSeq(Pfx)
 Init == /\ anon \in [Pfx -> BOOLEAN]        \* Community.__init__: settings.anonymize
+        /\ insts = [i \in 1..Len(PfxSeq) |-> [p |-> PfxSeq[i], req |-> anon[PfxSeq[i]], loaded |-> TRUE]]
+        /\ asked = anon
         /\ attached \in BOOLEAN             \* TunnelCommunity.__init__ registers itself when the endpoint is its own
         /\ hopsCfg = IF attached THEN 1 ELSE 0
-        /\ cand \in BOOLEAN
+        /\ cand \in CandInit
         /\ circuits = <<>> /\ ncirc = 0 /\ queue = <<>> /\ nsent = 0 /\ out = <<>>
         /\ last = [kind |-> "env", pkt |-> 0]
         /\ depth = 0
@@ -103,17 +131,19 @@ Matching    == SelectSeq(circuits, Matches)
 WouldCreate == cand \/ (hopsCfg > 1 /\ circuits # <<>>)
 NewCircuit(id, goal) == [id |-> id, goal |-> goal, len |-> 0, closing |-> FALSE, flag |-> FALSE]
 
-SendPlain(p) ==
-  /\ ~anon[p] /\ Tick
+(* a send by instance snd (loaded or not: a strategy tick or a stale reference may still call it); what *)
+(* the code does follows the SWITCH of the prefix, how the step is judged follows WHO ASKED (KindOf)  *)
+SendPlain(snd) ==
+  /\ snd \in DOMAIN insts /\ ~anon[insts[snd].p] /\ Tick
   /\ nsent' = nsent + 1
   /\ out' = <<Raw(nsent + 1)>>
-  /\ last' = [kind |-> "plain", pkt |-> nsent + 1]
-  /\ UNCHANGED <<anon, attached, hopsCfg, cand, circuits, ncirc, queue>>
+  /\ last' = [kind |-> KindOf(insts, asked, snd), pkt |-> nsent + 1]
+  /\ UNCHANGED <<anon, insts, asked, attached, hopsCfg, cand, circuits, ncirc, queue>>
 
-SendAnon(p) ==
-  /\ anon[p] /\ Tick
+SendAnon(snd) ==
+  /\ snd \in DOMAIN insts /\ anon[insts[snd].p] /\ Tick
   /\ nsent' = nsent + 1
-  /\ last' = [kind |-> "anon", pkt |-> nsent + 1]
+  /\ last' = [kind |-> KindOf(insts, asked, snd), pkt |-> nsent + 1]
   /\ LET k == nsent + 1 IN
      IF ~attached THEN
         /\ out' = IF LeakDetached THEN <<Raw(k)>> ELSE <<>>          \* dropped
@@ -133,11 +163,11 @@ SendAnon(p) ==
            /\ out' = <<Tun(k, c.id)>> \o [i \in 1..Len(queue) |-> Tun(queue[i], c.id)]
            /\ queue' = <<>>
            /\ UNCHANGED <<circuits, ncirc>>
-  /\ UNCHANGED <<anon, attached, hopsCfg, cand>>
+  /\ UNCHANGED <<anon, insts, asked, attached, hopsCfg, cand>>
 
 (* QCap - 1 - Len(queue) anonymised sends in a row while nothing can be sent or created           *)
-FillQueue(p) ==
-  /\ anon[p] /\ attached /\ Tick
+FillQueue(snd) ==
+  /\ snd \in DOMAIN insts /\ anon[insts[snd].p] /\ KindOf(insts, asked, snd) # "plain" /\ attached /\ Tick
   /\ \/ Matching # <<>> /\ ~IsReady(Matching[1]) /\ ~AnyState
      \/ Matching = <<>> /\ ~WouldCreate
   /\ Len(queue) < QCap - 1
@@ -146,44 +176,63 @@ FillQueue(p) ==
        /\ nsent' = nsent + n
        /\ last' = [kind |-> "fill", pkt |-> nsent + n]
   /\ out' = <<>>
-  /\ UNCHANGED <<anon, attached, hopsCfg, cand, circuits, ncirc>>
+  /\ UNCHANGED <<anon, insts, asked, attached, hopsCfg, cand, circuits, ncirc>>
 
 EnvStep == Tick /\ out' = <<>> /\ last' = Env /\ UNCHANGED <<nsent, queue, cand>>
 
 ToggleAnon(p) == /\ anon' = [anon EXCEPT ![p] = ~@]                 \* set_anonymity(prefix, not current)
+                 /\ insts' = InstsAfterSet(insts, p, ~anon[p])
+                 /\ asked' = AskedAfterSet(asked, p, ~anon[p])
                  /\ EnvStep /\ UNCHANGED <<attached, hopsCfg, circuits, ncirc>>
+
+(* Community.__init__ of another instance for prefix p on the same endpoint (a reload, a replacement *)
+(* brought up before the old one goes): anonymize = TRUE registers the prefix, FALSE touches nothing *)
+Load(p, a) == /\ Lifecycle /\ Len(insts) < MaxInst
+              /\ insts' = InstsAfterLoad(insts, p, a)
+              /\ asked' = AskedAfterLoad(asked, p, a)
+              /\ anon' = IF a THEN [anon EXCEPT ![p] = TRUE] ELSE anon
+              /\ EnvStep /\ UNCHANGED <<attached, hopsCfg, circuits, ncirc>>
+
+(* Community.unload() of instance i: the switch of the prefix is shared state of the endpoint and  *)
+(* stays as it is (other instances of the prefix, late sends of this one)                          *)
+Unload(i) == /\ Lifecycle /\ i \in DOMAIN insts /\ insts[i].loaded
+             /\ insts' = InstsAfterUnload(insts, i)
+             /\ anon' = IF UnloadClears /\ insts[i].req THEN [anon EXCEPT ![insts[i].p] = FALSE] ELSE anon
+             /\ EnvStep /\ UNCHANGED <<asked, attached, hopsCfg, circuits, ncirc>>
 
 Attach(h) == /\ h \in 1..MaxHops /\ (~attached \/ h # hopsCfg)      \* set_tunnel_community(tc, h)
              /\ attached' = TRUE /\ hopsCfg' = h
-             /\ EnvStep /\ UNCHANGED <<anon, circuits, ncirc>>
+             /\ EnvStep /\ UNCHANGED <<anon, insts, asked, circuits, ncirc>>
 
 Detach == /\ attached                                               \* set_tunnel_community(None)
           /\ attached' = FALSE /\ hopsCfg' = 1
-          /\ EnvStep /\ UNCHANGED <<anon, circuits, ncirc>>
+          /\ EnvStep /\ UNCHANGED <<anon, insts, asked, circuits, ncirc>>
 
 (* the tunnel community starts a circuit on its own (do_circuits / another user) *)
 AddCircuit(goal) == /\ goal \in 1..MaxHops /\ ncirc < MaxCid
                     /\ circuits' = Append(circuits, NewCircuit(ncirc + 1, goal))
                     /\ ncirc' = ncirc + 1
-                    /\ EnvStep /\ UNCHANGED <<anon, attached, hopsCfg>>
+                    /\ EnvStep /\ UNCHANGED <<anon, insts, asked, attached, hopsCfg>>
 
 (* created / extended arrives: one more hop, f = that hop advertises PEER_FLAG_EXIT_IPV8 *)
 HopAdded(i, f) == /\ i \in DOMAIN circuits /\ circuits[i].len < circuits[i].goal
                   /\ circuits' = [circuits EXCEPT ![i].len = @ + 1, ![i].flag = f]
-                  /\ EnvStep /\ UNCHANGED <<anon, attached, hopsCfg, ncirc>>
+                  /\ EnvStep /\ UNCHANGED <<anon, insts, asked, attached, hopsCfg, ncirc>>
 
 CircuitClosing(i) == /\ i \in DOMAIN circuits /\ ~circuits[i].closing
                      /\ circuits' = [circuits EXCEPT ![i].closing = TRUE]
-                     /\ EnvStep /\ UNCHANGED <<anon, attached, hopsCfg, ncirc>>
+                     /\ EnvStep /\ UNCHANGED <<anon, insts, asked, attached, hopsCfg, ncirc>>
 
 CircuitRemoved(i) == /\ i \in DOMAIN circuits
                      /\ circuits' = [j \in 1..(Len(circuits) - 1) |-> IF j < i THEN circuits[j] ELSE circuits[j + 1]]
-                     /\ EnvStep /\ UNCHANGED <<anon, attached, hopsCfg, ncirc>>
+                     /\ EnvStep /\ UNCHANGED <<anon, insts, asked, attached, hopsCfg, ncirc>>
 
-Next == \/ \E p \in Pfx : SendAnon(p)
-        \/ \E p \in Pfx : SendPlain(p)
-        \/ \E p \in Pfx : FillQueue(p)
+Next == \/ \E i \in 1..MaxInst : SendAnon(i)
+        \/ \E i \in 1..MaxInst : SendPlain(i)
+        \/ \E i \in 1..MaxInst : FillQueue(i)
         \/ \E p \in Pfx : ToggleAnon(p)
+        \/ \E p \in Pfx, a \in BOOLEAN : Load(p, a)
+        \/ \E i \in 1..MaxInst : Unload(i)
         \/ \E h \in 1..MaxHops : Attach(h)
         \/ Detach
         \/ \E g \in 1..MaxHops : AddCircuit(g)
@@ -195,6 +244,9 @@ Spec == Init /\ [][Next]_vars
 
 (* ------------------------------------- properties --------------------------------------------- *)
 TypeOK == /\ anon \in [Pfx -> BOOLEAN] /\ attached \in BOOLEAN /\ hopsCfg \in 0..MaxHops
+          /\ asked \in [Pfx -> BOOLEAN] /\ Len(insts) \in Cardinality(Pfx)..MaxInst
+          /\ \A i \in DOMAIN insts : insts[i].p \in Pfx /\ insts[i].req \in BOOLEAN /\ insts[i].loaded \in BOOLEAN
+          /\ \A i \in DOMAIN insts : insts[i].req => asked[insts[i].p]
           /\ Len(circuits) <= MaxCid /\ ncirc <= MaxCid
           /\ \A i \in DOMAIN circuits : circuits[i].id \in 1..ncirc /\ circuits[i].len <= circuits[i].goal
           /\ \A i, j \in DOMAIN circuits : i # j => circuits[i].id # circuits[j].id
@@ -202,7 +254,10 @@ TypeOK == /\ anon \in [Pfx -> BOOLEAN] /\ attached \in BOOLEAN /\ hopsCfg \in 0.
 
 (* the four named invariants of the design, over the last step (a send() never changes an existing *)
 (* circuit, so the configuration after the step is the one the emissions were made under)          *)
-NoRawForAnon == \A i \in DOMAIN out : out[i].k = "raw" => last.kind = "plain" /\ out[i].pkt = last.pkt
+NoRawForAnon == \A i \in DOMAIN out : out[i].k = "raw" => last.kind \in {"plain", "open"} /\ out[i].pkt = last.pkt
+(* implementation layer: the switch of a prefix is on exactly while somebody asked - whatever was *)
+(* loaded, replaced or unloaded in between                                                         *)
+SwitchFollowsRequests == \A p \in Pfx : anon[p] = asked[p]
 TunnelledOnlyOverReadyRightCircuit ==
   \A i \in DOMAIN out : out[i].k = "tun" =>
      attached /\ \E j \in DOMAIN circuits : circuits[j].id = out[i].cid /\ RightCircuit(circuits[j], hopsCfg)
